@@ -1770,6 +1770,28 @@ fn gen_c11(o: &mut Out, r: &mut Rng, d: &GDict, tier: &str) {
     }
 }
 
+/// randomised multi-threaded runs over real TCP through `connect()` (supporting part of C11 / C12)
+fn gen_ctcp(o: &mut Out, r: &mut Rng, tier: &str, cuts: bool) {
+    let thorough = tier == "thorough";
+    let mut id = if cuts { 500 } else { 0 };
+    for n in 1..=5usize {
+        let perms = permutations(n);
+        for _ in 0..(if thorough { 24 } else { 5 }) {
+            let perm = r.pick(&perms).clone();
+            let ps: Vec<String> = perm.iter().map(|x| x.to_string()).collect();
+            id += 1;
+            if !cuts {
+                o.case(&format!("tcp n={} eager={}", n, id % 2));
+                o.line(&format!("ctcp n={} perm={} eager={} cut=- reset=0 id={}", n, ps.join("."), id % 2, id));
+            } else {
+                let c = r.below((32 * n) as u64 + 1);
+                o.case(&format!("tcp n={} cut={}", n, c));
+                o.line(&format!("ctcp n={} perm={} eager=0 cut={} reset={} id={}", n, ps.join("."), c, id % 2, id));
+            }
+        }
+    }
+}
+
 fn gen_c12(o: &mut Out, r: &mut Rng, d: &GDict, tier: &str) {
     let thorough = tier == "thorough";
     let mut uid = 9000u32;
@@ -2383,10 +2405,12 @@ pub fn generate(family: &str, seed: u64, tier: &str, extra: &[String], w: &mut d
         "c11" => {
             emit_dict(o.w, &d0);
             gen_c11(&mut o, &mut r, &d0, tier);
+            gen_ctcp(&mut o, &mut r, tier, false);
         }
         "c12" => {
             emit_dict(o.w, &d0);
             gen_c12(&mut o, &mut r, &d0, tier);
+            gen_ctcp(&mut o, &mut r, tier, true);
         }
         "c10" => gen_c10(&mut o, &mut r, tier),
         "c13" => gen_c13(&mut o, &mut r, tier),
